@@ -80,6 +80,10 @@ pub fn check_vectors(data: &[u8], recs: &[Rec], count_recs: &[Rec], cfg: &CovCfg
 
 pub fn run_cov(in_path: &str, alt_path: Option<&str>, out_dir: &str, cfg: &CovCfg) -> Result<Vec<u8>, (String, String)> {
     let _ = std::fs::create_dir_all(out_dir);
+    if !std::path::Path::new(&format!("{}/kmers.vectors", out_dir)).exists() {
+        // every other fresh directory starts with a stale, longer vectors file
+        super::oligo::prepare_output(&format!("{}/kmers.vectors", out_dir));
+    }
     let r = guarded(|| {
         let mut cov = CovComputer::new(in_path.to_string(), out_dir.to_string(), cfg.k, cfg.bin_size, cfg.bin_count);
         cov.set_threads(cfg.threads);
